@@ -65,12 +65,15 @@ class Session:
         return r
 
     # ----------------------------------------------------------------- cases
-    def execute(self, cases, name):
-        """Run cases on the real code; returns list of records (case + obs)."""
+    def execute(self, cases, name, build=None):
+        """Run cases on the real code; returns list of records (case + obs).  build="defmt": the harness linked against
+        the library with its optional defmt feature (the cases carry the field so that a replay uses the same build)."""
         cpath = os.path.join(self.wd, name + ".cases.ndjson")
         opath = os.path.join(self.wd, name + ".trace.ndjson")
+        if build:
+            cases = [dict(c, build=build) for c in cases]
         C.write_ndjson(cpath, cases)
-        rc = C.conf("exec", cpath, opath)
+        rc = C.conf("exec", cpath, opath, build=build)
         if rc == 3:
             hang = json.load(open(opath + ".hang"))
             p = C.write_replay(self.prop, "hang-" + name, {"why": "the call did not return (watchdog)", "case": hang.get("case")})
